@@ -279,6 +279,14 @@ func checkInvariants(c resolve.Client, reg *Registry, order [][2]string) ([]find
 				})
 				_ = before
 			}
+			// The package has that one version only: asking for another one finds nothing.
+			other := npmVK(m, otherVersion, resolve.Concrete)
+			if ov, err := c.Version(ctx, other); err == nil {
+				add("bundle:Version:other-version-found", "%s: Version(%s) — a version the package does not have (Versions lists only %q) — succeeds and returns %s", who, vkStr(other), b.Version, verStr(ov))
+			}
+			if ors, err := c.Requirements(ctx, other); err == nil {
+				add("bundle:Requirements:other-version-found", "%s: Requirements(%s) — a version the package does not have (Versions lists only %q) — succeeds and returns %d requirements", who, vkStr(other), b.Version, len(ors))
+			}
 		})
 	}
 	countAliases := func(d Deps) {
